@@ -506,6 +506,21 @@ def s_extract_split(vc):
 
 
 # =============================================================================================
+# decoding contract shared with C25: the question a flow / a reply / a SERVFAIL carries is the question that was read off the wire
+
+QUESTION_CANDS = [dict(name0="wWw.ExAmPlE.CoM"), dict(name0="example.com"), dict(name0="A")]
+
+
+@scenario("decode.question_as_sent", functions=[M + ".unpack_from"], max_unroll=2, candidates=QUESTION_CANDS)
+def s_question_as_sent(vc):
+    """DNSMessage.unpack_from keeps the question exactly as the name reader returned it (case included), with its type and class
+    (contract text: props/C25.py _unpack_framing). fail()/succeed() reuse that question list (message.fail / message.succeed),
+    so the reply's question section is the query's."""
+    from props import C25
+    return C25._unpack_framing(vc, [(1, 0, 0, 0)], False)
+
+
+# =============================================================================================
 # T2 (bounded): real DNSLayer driven sans-io over query/reply sessions, UDP and TCP with every <=2-cut segmentation
 
 ASSUMPTIONS = [
@@ -609,6 +624,7 @@ def bounded(tier, seed):
               "prefix / undecodable frame / incomplete frame after 0-2 valid frames. distinct = (session, transport, segmentation); non-trivial = at least one hook fired")
     b.bound = "<= 3 queries and <= 3 replies per session; <= 2 cuts per stream"
     A, B_, C_ = "a.example", "b.example", "c.example"
+    MIX = "wWw.ExAmPlE.CoM"
     sessions = [
         ("matching", [_q(1, A)], [_r(1, A)], "forward", ""),
         ("two_out_of_order", [_q(1, A), _q(2, B_)], [_r(2, B_), _r(1, A)], "forward", ""),
@@ -620,6 +636,12 @@ def bounded(tier, seed):
         ("upstream_fails", [_q(8, A)], [], "upstream_fails", ""),
         ("addon_response", [_q(9, A), _q(10, B_)], [], "addon_response", ""),
         ("addon_error", [_q(11, A, flags=0x0000)], [], "addon_error", ""),
+        # dns-0x20: resolvers randomise the case of the query name and verify a byte-exact echo of the question section
+        ("mixed_case_forward", [_q(31, MIX), _q(32, "UPPER.EXAMPLE")], [_r(32, "UPPER.EXAMPLE"), _r(31, MIX)], "forward", ""),
+        ("mixed_case_no_upstream", [_q(33, MIX)], [], "no_upstream", ""),
+        ("mixed_case_upstream_fails", [_q(34, MIX, flags=0x0000)], [], "upstream_fails", ""),
+        ("mixed_case_addon_error", [_q(35, MIX)], [], "addon_error", ""),
+        ("mixed_case_addon_response", [_q(36, MIX)], [], "addon_response", ""),
         ("unsolicited", [_q(1, A)], [_r(9, A)], "forward", "unsolicited_upstream_message"),
         ("unsolicited_then_matching", [_q(1, A)], [_r(9, B_), _r(1, A)], "forward", "unsolicited_upstream_message"),
         ("duplicated_ids", [_q(7, A), _q(7, B_)], [_r(7, A), _r(7, B_)], "forward", "duplicated_ids"),
@@ -639,6 +661,16 @@ def bounded(tier, seed):
                 b.fail("c27.reported_flow_carries_its_query" + sfx, inp, f"hook {h['name']} fired with a flow without request (response {h['resp']})")
             elif h["name"] == "dns_response" and h["resp"] is not None and (h["req"][0] != h["resp"][0] or h["req"][1] != h["resp"][1]) and mode == "forward":
                 b.fail("c27.response_flow_pairs_reply_with_its_query" + sfx, inp, f"flow.request {h['req']} flow.response {h['resp']}")
+        if mode == "forward":
+            fwd = []
+            for w in t["to_server"]:
+                try:
+                    (h2, q2, _s2), _i = dnsref.parse_message(w)
+                    fwd.append((h2, q2))
+                except dnsref.RefError as e:
+                    b.fail("c27.forwarded_query_wellformed" + sfx, inp, f"{e}: {w.hex()}")
+            if cls == "" and fwd != sent:
+                b.fail("c27.forwarded_query_is_the_client_query" + sfx, inp, f"client sent {sent}; server received {fwd}")
         for w in t["to_client"]:
             try:
                 (hdr, qs, secs), _i = dnsref.parse_message(w)
